@@ -11,7 +11,9 @@
    harness delegates that to git (hash-object / cat-file on the same directory).          *)
 EXTENDS Integers, Sequences, FiniteSets, TLC, Json
 
-CONSTANTS Emit
+CONSTANTS Emit,
+          NW,       \* number of object writers in a life-cycle history (2 quick, 3 thorough)
+          MaxReclose \* repeated Close calls per history
 
 \* "Switched*": the same operations on ONE live filesystem.Storage handle that was created without an object
 \* format and switched to the row's format afterwards (Storage.SetObjectFormat - what a clone from a SHA-256
@@ -51,9 +53,42 @@ ReadVerdict(m, c) == IF m = "none" THEN "accept"
 ReadCases == {[mut |-> m, fmt |-> f, content |-> c] : m \in Mutations, f \in Formats, c \in {"onebyte", "nul", "overthreshold"}}
 
 VARIABLES cs
+
+\* ---- writer life cycles: open / write / close as separate steps of several writers in ONE process ----
+\* A loose-object writer (RawObjectWriter, LazyWriter; SetEncodedObject is the atomic variant) is opened,
+\* receives its content, and is closed; Close may be called again on a closed writer (defer w.Close() next
+\* to a checked w.Close() is ordinary Go; the repeated call may report "already closed", its result is not judged).  Writers are independent: whatever other writers did in between -
+\* including a repeated Close, and including an earlier writer of the same process that was closed twice
+\* (prior) - every successfully closed writer has published exactly its own object: git reads it back with
+\* the writer's type, size and content.  The abstract store is the set of closed writers.
+Writers == 1..NW
+LifeApis == {"raw", "lazy", "set"}
+Priors == {"none", "raw", "lazy"}        \* an earlier complete writer of that API, closed twice, before the history
+
+Published(c) == {w \in Writers : c.ph[w] = "closed"}
+PubSeq(c) == [w \in Writers |-> c.ph[w] = "closed"]
+
+LifeInit == \E p \in Priors :
+   cs = [dir |-> "life", prior |-> p, ph |-> [w \in Writers |-> "new"], api |-> [w \in Writers |-> "none"],
+         re |-> [w \in Writers |-> FALSE], hist |-> <<>>]
+
+LifeStep(c, op, w) == [c EXCEPT !.hist = Append(@, [op |-> op, w |-> w, api |-> c.api[w], pub |-> PubSeq(c)])]
+
+LifeNext ==
+  /\ cs.dir = "life"
+  /\ \/ \E w \in Writers, a \in LifeApis :              \* writers are opened in index order (symmetry)
+          /\ cs.ph[w] = "new" /\ \A v \in Writers : v < w => cs.ph[v] # "new"
+          /\ cs' = LifeStep([cs EXCEPT !.ph[w] = (IF a = "set" THEN "closed" ELSE "open"), !.api[w] = a], IF a = "set" THEN "set" ELSE "open", w)
+     \/ \E w \in Writers : cs.ph[w] = "open" /\ cs' = LifeStep([cs EXCEPT !.ph[w] = "written"], "write", w)
+     \/ \E w \in Writers : cs.ph[w] = "written" /\ cs' = LifeStep([cs EXCEPT !.ph[w] = "closed"], "close", w)
+     \/ \E w \in Writers : /\ cs.ph[w] = "closed" /\ cs.api[w] # "set" /\ ~cs.re[w]
+                            /\ Cardinality({v \in Writers : cs.re[v]}) < MaxReclose
+                            /\ cs' = LifeStep([cs EXCEPT !.re[w] = TRUE], "reclose", w)
+
 Init == \/ \E w \in WriteCases : cs = [dir |-> "write", w |-> w, expect |-> Expected(w)]
         \/ \E r \in ReadCases : cs = [dir |-> "read", r |-> r, verdict |-> ReadVerdict(r.mut, r.content)]
-Next == UNCHANGED cs
+        \/ LifeInit
+Next == LifeNext \/ (cs.dir # "life" /\ UNCHANGED cs)
 
 O_HeaderShape == cs.dir = "write" => (Len(cs.expect.header) = 4 /\ cs.expect.header[1] \in Types /\ cs.expect.header[3] >= 0)
 O_FanOut      == cs.dir = "write" => cs.expect.dirlen + cs.expect.filelen = HexLen(cs.w.fmt)
@@ -61,5 +96,12 @@ O_OnlyValid   == cs.dir = "read" => (cs.verdict = "accept" <=> cs.r.mut = "none"
 O_HeaderGrammarRejects == (cs.dir = "read" /\ cs.r.mut \in {"leading-zero", "size-empty", "size-nondigit", "size-negative", "unknown-type",
                                                             "uppercase-type", "no-space", "two-spaces", "empty-file", "not-zlib", "truncated-zlib"})
                           => cs.verdict = "reject"
-EmitRow == Emit => PrintT(ToJson(cs))
+\* life-cycle theorems: the published set is a function of each writer's own steps only
+L_OwnStepsOnly == cs.dir = "life" => \A i \in 1..Len(cs.hist) : \A w \in Writers :
+                     cs.hist[i].pub[w] <=> (\E j \in 1..i : cs.hist[j].w = w /\ cs.hist[j].op \in {"close", "set"})
+L_RecloseNoop  == cs.dir = "life" => \A i \in 2..Len(cs.hist) : cs.hist[i].op = "reclose" => cs.hist[i].pub = cs.hist[i-1].pub
+L_Monotone     == cs.dir = "life" => \A i \in 2..Len(cs.hist) : \A w \in Writers : cs.hist[i-1].pub[w] => cs.hist[i].pub[w]
+LifeDone == cs.dir = "life" /\ \A w \in Writers : cs.ph[w] = "closed"
+EmitRow == (Emit /\ (cs.dir # "life" \/ LifeDone)) =>
+             PrintT(ToJson(IF cs.dir = "life" THEN [dir |-> "life", prior |-> cs.prior, hist |-> cs.hist] ELSE cs))
 =============================================================================
